@@ -97,7 +97,7 @@ PATT_BROKEN_STRING = re.compile(r"""
     (?:"                               # opening double quote
         (?: [^"\\\n\r\u2028\u2029]     # not ", \, line terminators; allow
             | \\(\n|\r(?!\n)|\u2028|\u2029|\r\n)  # line continuation
-            | \\[a-tvwyzA-TVWYZ!-\/:-@\[-`{-~] # escaped chars
+            | \\[^0-9xu\n\r\u2028\u2029]      # escaped chars
             | \\x[0-9a-fA-F]{2}        # hex_escape_sequence
             | \\u[0-9a-fA-F]{4}        # unicode_escape_sequence
             | \\[0-7]                  # octal_escape_sequence, <NUL>; one
@@ -110,7 +110,7 @@ PATT_BROKEN_STRING = re.compile(r"""
     (?:'                               # opening single quote
         (?: [^'\\\n\r\u2028\u2029]     # not ', \, line terminators; allow
             | \\(\n|\r(?!\n)|\u2028|\u2029|\r\n)  # line continuation
-            | \\[a-tvwyzA-TVWYZ!-\/:-@\[-`{-~] # escaped chars
+            | \\[^0-9xu\n\r\u2028\u2029]      # escaped chars
             | \\x[0-9a-fA-F]{2}        # hex_escape_sequence
             | \\u[0-9a-fA-F]{4}        # unicode_escape_sequence
             | \\[0-7]                  # octal_escape_sequence, <NUL>; one
@@ -688,7 +688,7 @@ class Lexer(object):
         (?:"                               # opening double quote
             (?: [^"\\\n\r\u2028\u2029]     # not ", \, line terminators; allow
                 | \\(\n|\r(?!\n)|\u2028|\u2029|\r\n)  # line continuation
-                | \\[a-tvwyzA-TVWYZ!-\/:-@\[-`{-~] # escaped chars
+                | \\[^0-9xu\n\r\u2028\u2029]      # escaped chars
                 | \\x[0-9a-fA-F]{2}        # hex_escape_sequence
                 | \\u[0-9a-fA-F]{4}        # unicode_escape_sequence
                 | \\[0-7]                  # octal_escape_sequence, <NUL>; one
@@ -701,7 +701,7 @@ class Lexer(object):
         (?:'                               # opening single quote
             (?: [^'\\\n\r\u2028\u2029]     # not ', \, line terminators; allow
                 | \\(\n|\r(?!\n)|\u2028|\u2029|\r\n)  # line continuation
-                | \\[a-tvwyzA-TVWYZ!-\/:-@\[-`{-~] # escaped chars
+                | \\[^0-9xu\n\r\u2028\u2029]      # escaped chars
                 | \\x[0-9a-fA-F]{2}        # hex_escape_sequence
                 | \\u[0-9a-fA-F]{4}        # unicode_escape_sequence
                 | \\[0-7]                  # octal_escape_sequence, <NUL>; one
